@@ -382,6 +382,15 @@ func judgePair(lt, rt Tree, seq []int, sub string) (sig, what string) {
 				}
 				return sig, "inputs are DeepEqual but the diff has a one-sided entry:\n" + d.String()
 			}
+			// a tree and its re-ordered copy are deep-equal by construction (C07), whatever the implementation's
+			// DeepEqual says about them
+			if !d.IsDeepEqual() && !(gedcom.DeepEqual(L, R) && gedcom.DeepEqual(R, L)) {
+				sig := "reordered-copy-not-all-two-sided"
+				if dateSharingTriple(L) {
+					sig += ":non-transitive-date-sharing-siblings"
+				}
+				return sig, "the right input is a re-ordered copy of the left one but the diff has a one-sided entry (and DeepEqual denies that they are equal):\n" + d.String()
+			}
 		}
 		return "", ""
 	}
@@ -557,6 +566,8 @@ func run(tier, unit string, r *vlib.Rec) {
 				}
 			}
 		}
+	case "recompare":
+		runRecompare(r, lo, hi)
 	case "classes": // sibling multisets around every specialised Equals rule (gen.EqualityClassPool)
 		pool := gen.EqualityClassPool
 		mk := func(parts ...string) Tree {
@@ -683,6 +694,7 @@ func plan(tier string) []string {
 	out := vlib.Chunks("pairs", n, size)
 	out = append(out, vlib.Chunks("variants", n, 200)...)
 	out = append(out, vlib.Chunks("classes", int64(len(gen.EqualityClassPool)), 2)...)
+	out = append(out, vlib.Chunks("recompare", int64(len(recomparePool())), 4)...)
 	out = append(out, "aliased:0:4")
 	return out
 }
@@ -690,6 +702,9 @@ func plan(tier string) []string {
 func replay(c json.RawMessage) (string, string) {
 	var k kase
 	json.Unmarshal(c, &k)
+	if k.Sub == "recompare" && len(k.Ops) == 2 {
+		return judgeRecompare(k.L, k.R, k.Ops[0], []string{"DeleteNode", "SetNodes"}[k.Ops[1]])
+	}
 	if k.Sub == "aliased" && len(k.Ops) == 2 {
 		return judgeAliased(k.Ops[0], k.Ops[1])
 	}
@@ -699,6 +714,17 @@ func replay(c json.RawMessage) (string, string) {
 }
 
 var _ = gx.Dump
+
+// recomparePool: the subtrees of the equality-class pool that have children (only those can be edited below).
+func recomparePool() []string {
+	var out []string
+	for _, p := range gen.EqualityClassPool {
+		if strings.Contains(p, "\n") {
+			out = append(out, p)
+		}
+	}
+	return out
+}
 
 func main() {
 	vlib.Main(&vlib.Check{
